@@ -2108,7 +2108,7 @@ impl<R: Read> Vp8Decoder<R> {
         if self.frame.keyframe {
             if filter_level >= 40 {
                 hev_threshold = 2;
-            } else {
+            } else if filter_level >= 15 {
                 hev_threshold = 1;
             }
         } else {
